@@ -61,7 +61,8 @@ PROBES = ["switch_inside_mkdir_window", "crash_between_wrapper_cpp_writes", "tor
           "crash_in_open_write_window", "second_run_over_existing_outputs",
           "mkdir_race_lost_after_isdir_false", "xml_store_changed_between_calls", "hashseed_varied_build",
           "hashseed_build_with_2plus_submodules", "inputs_named_relative_to_cwd",
-          "xml_source_relative_to_cwd", "decoy_neighbours_present"]
+          "xml_source_relative_to_cwd", "decoy_neighbours_present",
+          "canonical_configuration_all_three_scripts_succeed"]
 # (debris_of_killed_incarnation is counted when it happens; the unchanged tree never leaves any)
 
 
@@ -78,6 +79,12 @@ def batches(tier):
 
 
 def vacuous(stats, probes):
+    nc = stats.get("config_runs", 0)
+    for which in ("ml", "py"):
+        badc = stats.get("config_canonical_%s_failed" % which, 0)
+        if nc >= 6 and badc > 0.5 * nc:
+            return ("in %d of %d real-process configuration runs the canonical %s run itself fails: the batch compares "
+                    "failures with failures" % (badc, nc, which))
     n, bad = stats.get("build_runs", 0), stats.get("solo_failed_runs", 0)
     if n >= 20 and bad > 0.5 * n:
         return ("in %d of %d builds the reference run of a task on its own (valid inputs, empty build directory) "
@@ -1052,6 +1059,9 @@ def run_config(tape, ctx):
         py_text = G.render(lex, tape) + _pair_template(tape, "QA")
         m2, lex2, _ = G.generate(tape, "matlab", tag="QB", max_decls=4)
         ml_text = G.render(lex2, tape)
+        if tape.bool(0.5, "ml-function-with-trailing-defaults"):
+            # trailing default arguments make the MATLAB generator expand one declaration into several overloads
+            ml_text += "\nvoid tuneQB(int a, double b = 0.5, int c = 3);\nclass KnobQB {\n  KnobQB();\n  void turn(double by = 1.5) const;\n};\n"
         py_src = os.path.join(srcd, "main.i")
         sub_src = os.path.join(srcd, tape.pick(["sub.i", "part.two.i"], "sub-name"))
         more_subs = [os.path.join(srcd, n) for n in ["geometry.i", "slam.i", "nav.i"][:tape.choose(4, "n-more-subs")]]
@@ -1065,6 +1075,21 @@ def run_config(tape, ctx):
         nconf = 2 + tape.small(2, "n-conf", p=0.6)
         outs = []
         confs = []
+        # the subprocesses run a scratch copy of the working tree's package and scripts: the MATLAB wrapper reads
+        # gtwrap/matlab_wrapper/matlab_wrapper.tpl next to its own source, a git-ignored file that a fresh checkout
+        # lacks (the test suite creates it on first run) -- without it every configuration fails alike and K1
+        # compares failures with failures
+        tree_copy = os.path.join(tmp, "tree")
+        shutil.copytree(os.path.join(REPO, "gtwrap"), os.path.join(tree_copy, "gtwrap"),
+                        ignore=shutil.ignore_patterns("__pycache__", "*.pyc"))
+        shutil.copytree(os.path.join(REPO, "scripts"), os.path.join(tree_copy, "scripts"),
+                        ignore=shutil.ignore_patterns("__pycache__", "*.pyc"))
+        tpl_copy = os.path.join(tree_copy, "gtwrap", "matlab_wrapper", "matlab_wrapper.tpl")
+        if not os.path.exists(tpl_copy):
+            with open(tpl_copy, "wb") as f:
+                f.write(BUNDLED_TPL_BYTES)
+        py_script = os.path.join(tree_copy, "scripts", "pybind_wrap.py")
+        ml_script = os.path.join(tree_copy, "scripts", "matlab_wrap.py")
         nonascii = any(ord(c) > 127 for c in py_text + ml_text)
         for ci in range(nconf):
             if ci == 0:
@@ -1091,10 +1116,10 @@ def run_config(tape, ctx):
             env["PYTHONHASHSEED"] = conf["hashseed"]
             if conf.get("pyopt"):
                 env["PYTHONOPTIMIZE"] = conf["pyopt"]
-            env["PYTHONPATH"] = REPO
+            env["PYTHONPATH"] = tree_copy
             if conf.get("clock"):
                 env["PYTHONPATH"] = os.path.join(os.path.dirname(os.path.dirname(os.path.abspath(__file__))),
-                                                 "sim", "fakeclock") + os.pathsep + REPO
+                                                 "sim", "fakeclock") + os.pathsep + tree_copy
                 env["VERIF_FAKE_CLOCK_SHIFT"] = conf["clock"]
             env["PYTHONDONTWRITEBYTECODE"] = "1"
             if conf.get("who"):
@@ -1110,15 +1135,15 @@ def run_config(tape, ctx):
             subcwd = os.path.join(outdir, "subcwd")
             os.makedirs(subcwd)
             cmds = [
-                ([sys.executable, PY_SCRIPT, "--src", ";".join([rel(py_src), rel(sub_src)] + [rel(q) for q in more_subs]),
+                ([sys.executable, py_script, "--src", ";".join([rel(py_src), rel(sub_src)] + [rel(q) for q in more_subs]),
                   "--module_name", "mod",
                   "--out", rel(os.path.join(outdir, "mod.cpp")), "--top_module_namespaces", "", "--ignore",
                   "--template", rel(tpl), "--xml_source", ""] + (["--use-boost-serialization"] if boost else []),
                  cwd),
-                ([sys.executable, PY_SCRIPT, "--src", sub_src, "--module_name", "mod", "--out", "x.cpp",
+                ([sys.executable, py_script, "--src", sub_src, "--module_name", "mod", "--out", "x.cpp",
                   "--top_module_namespaces", "", "--ignore", "--template", tpl, "--is_submodule",
                   "--xml_source", ""], subcwd),
-                ([sys.executable, ML_SCRIPT, "--src", rel(ml_src), "--module_name", "tool", "--out",
+                ([sys.executable, ml_script, "--src", rel(ml_src), "--module_name", "tool", "--out",
                   rel(os.path.join(outdir, "tb")), "--top_module_namespaces", "", "--ignore"], cwd),
             ]
             status = []
@@ -1137,6 +1162,8 @@ def run_config(tape, ctx):
             outs.append((status, sorted(tree.items())))
         viol = []
         probes = {}
+        if all(st[0] == 0 for st in outs[0][0]):
+            probes["canonical_configuration_all_three_scripts_succeed"] = 1
         for ci in range(1, nconf):
             if confs[ci]["rerun"]:
                 probes["second_run_over_existing_outputs"] = 1
@@ -1165,7 +1192,9 @@ def run_config(tape, ctx):
                 break
         digest = hashlib.sha256(repr((confs, outs)).encode()).hexdigest()
         return {"violations": viol, "digest": digest, "nontrivial": nconf >= 2,
-                "stats": {"config_runs": 1, "configurations": nconf, "real_subprocesses": 3 * nconf},
+                "stats": {"config_runs": 1, "configurations": nconf, "real_subprocesses": 3 * nconf,
+                          "config_canonical_ml_failed": int(outs[0][0][2][0] != 0),
+                          "config_canonical_py_failed": int(outs[0][0][0][0] != 0)},
                 "faults": {}, "probes": probes, "steps": 3 * nconf,
                 "sample": {"confs": confs, "py_input": py_text[:300]}}
     finally:
